@@ -377,6 +377,10 @@ func aliased(g *G, op string, c Ctx, x, y Dec, q int) {
 	if binOps[op] && g.R.bool() {
 		al = "dy"
 	}
+	if binOps[op] && g.R.Intn(3) == 0 { // the same object as both operands (and possibly as the destination too)
+		y = x
+		al = []string{"xy", "dxy"}[g.R.Intn(2)]
+	}
 	g.emit(mkA(op, c, x, y, q, al, fresh), op+"/"+al)
 }
 
